@@ -51,6 +51,7 @@ type desc struct {
 	SD       int64     `json:"sd"`
 	Hist     []histOp  `json:"hist"`
 	Points   []ptDesc  `json:"points"`
+	RT       bool      `json:"rt,omitempty"` // marshal/unmarshal the metadata (what a data node's client cache holds) before MapShards
 	Subs     [][]int   `json:"subs"` // sub-batches (positions of Points), each run on a copy of the metadata left by the main batch
 }
 
@@ -366,6 +367,30 @@ func runCase(o *hx.Out, d *desc, origin string, fresh bool) {
 		o.Count("skipped:points:" + err.Error())
 		return
 	}
+	if d.RT {
+		gb := observeGroups(data)
+		mb := coqMeta(data, gb)
+		buf, err := data.MarshalBinary()
+		if err != nil {
+			o.Count("skipped:marshal:" + err.Error())
+			return
+		}
+		data2 := &meta.Data{}
+		if err := data2.UnmarshalBinary(buf); err != nil {
+			o.Count("skipped:unmarshal:" + err.Error())
+			return
+		}
+		ga := observeGroups(data2)
+		ma := coqMeta(data2, ga)
+		dd := *d
+		dd.Base = 0
+		js, _ := json.Marshal(dd)
+		o.Count("roundtrip:cases")
+		o.Emit(hx.Case{Kind: "rt", Coq: fmt.Sprintf("CRt %s %s", mb, ma), Desc: d,
+			Obs:        map[string]interface{}{"groups_before": gb, "groups_after_roundtrip": ga, "identical": mb == ma},
+			Nontrivial: len(gb) > 0, Sig: fmt.Sprintf("rt:%x", sha1.Sum(js)), Origin: origin})
+		data = data2
+	}
 	g0 := observeGroups(data)
 	m0 := coqMeta(data, g0)
 	all := make([]int, len(pts))
@@ -507,13 +532,13 @@ func gen(r *hx.Rand, o *hx.Out) *desc {
 		}
 	} else {
 		switch r.Intn(8) {
-		case 0:
+		case 0, 1:
 			anchor = minNano
-		case 1:
-			anchor = maxNano
 		case 2:
+			anchor = maxNano
+		case 3, 4:
 			anchor = 0
-		case 3:
+		case 5:
 			anchor = int64(r.U64())
 		default:
 			anchor = now - int64(r.U64()%uint64(10*365*24*time.Hour))
@@ -538,6 +563,14 @@ func gen(r *hx.Rand, o *hx.Out) *desc {
 			}
 		}
 		return t
+	}
+	// wire-format corner values: a group ending exactly at the Unix epoch (marshalled as 0), a
+	// group starting at the clamped minimum
+	if !finite && anchor == 0 && r.Chance(60) {
+		d.Hist = append(d.Hist, histOp{Op: "create", T: -1})
+	}
+	if !finite && anchor == minNano && r.Chance(60) {
+		d.Hist = append(d.Hist, histOp{Op: "create", T: satAdd(minNano, int64(r.U64()%uint64(span)))})
 	}
 	// history on a scratch copy to learn the boundaries
 	malformed := r.Chance(12)
@@ -630,6 +663,7 @@ func gen(r *hx.Rand, o *hx.Out) *desc {
 		}
 		d.Points = append(d.Points, p)
 	}
+	d.RT = r.Chance(40)
 	// sub-batches on the resulting metadata: a shuffle, single points, a random subset, the batch doubled
 	n := len(d.Points)
 	if n > 0 {
@@ -687,6 +721,17 @@ func designed() []*desc {
 	// 8. many shards: hash spreads series
 	ds = append(ds, &desc{Nodes: 5, Replica: 1, SD: h, Points: []ptDesc{{Name: "cpu", T: t0}, {Name: "mem", T: t0}, {Name: "cpu", Tags: [][2]string{{"host", "a"}}, T: t0}, {Name: "cpu", Tags: [][2]string{{"host", "b"}}, T: t0},
 		{Name: "cpu", T: t0 + 1}, {Name: "m", T: t0}}, Subs: [][]int{{5, 4, 3, 2, 1, 0}, {0}}})
+	// 9. first representable instants: the group start is clamped to MinInt64; metadata goes through a marshal round trip
+	ds = append(ds, &desc{Nodes: 2, Replica: 1, SD: 7 * 24 * h, RT: true, Hist: []histOp{{Op: "create", T: minNano + 5}},
+		Points: []ptDesc{{Name: "cpu", T: minNano}, {Name: "cpu", T: minNano + 1}, {Name: "mem", T: minNano + 3*h}, {Name: "cpu", T: minNano + 7*24*h}}, Subs: [][]int{{3, 2, 1, 0}, {0}}})
+	ds = append(ds, &desc{Nodes: 1, Replica: 1, SD: 1000, RT: true,
+		Points: []ptDesc{{Name: "cpu", T: minNano}, {Name: "cpu", T: minNano + 1}, {Name: "cpu", T: minNano + 999}, {Name: "cpu", T: minNano + 1000}}, Subs: [][]int{{1}, {3, 0}}})
+	// 10. pre-1970 group ending exactly at the Unix epoch (wire value 0), through a marshal round trip
+	ds = append(ds, &desc{Nodes: 2, Replica: 1, SD: h, RT: true, Hist: []histOp{{Op: "create", T: -1}, {Op: "create", T: 0}},
+		Points: []ptDesc{{Name: "cpu", T: -1}, {Name: "cpu", T: 0}, {Name: "cpu", T: -h}, {Name: "cpu", T: -h - 1}, {Name: "cpu", T: h - 1}}, Subs: [][]int{{0}, {1}, {4, 3, 2, 1, 0}}})
+	// 11. group truncated exactly at the epoch, successor starting there, through a round trip
+	ds = append(ds, &desc{Nodes: 2, Replica: 1, SD: 24 * h, RT: true, Hist: []histOp{{Op: "create", T: -5}, {Op: "trunc", T: 0}},
+		Points: []ptDesc{{Name: "cpu", T: -5}, {Name: "cpu", T: 0}, {Name: "cpu", T: 5}}, Subs: [][]int{{1}, {2, 0}}})
 	return ds
 }
 
@@ -700,7 +745,7 @@ func main() {
 			if err := json.Unmarshal(in.Desc, &d); err != nil {
 				panic(err)
 			}
-			runCase(o, &d, "replay", false)
+			runCase(o, &d, "replay", false) // kinds "map" and "rt" share the description
 		}
 		return
 	}
